@@ -1,209 +1,530 @@
 import Model.Writer
 namespace Writer
 
-/-- the inductive invariant of the writer machine -/
-structure Inv (lens : Nat → Nat) (s : St) : Prop where
-  bound : ∀ c ∈ s.wire, 0 < c.n ∧ c.n ≤ c.len ∧ c.len = lens c.id
-  nodup : (s.wire.map (·.id)).Nodup
-  /-- a writer that has not written yet has no bytes on the wire -/
-  fresh : ∀ w, (s.pc w = .idle ∨ s.pc w = .queued ∨ s.pc w = .cancelled) → ∀ c ∈ s.wire, c.id ≠ w
-  /-- success is reported only for a whole frame that is on the wire -/
-  okWhole : ∀ w n, (s.pc w = .wrote n true ∨ s.pc w = .done true) → 0 < lens w → ⟨w, lens w, lens w⟩ ∈ s.wire
-  /-- an incomplete frame on the wire: its writer got an error and is on its way to closeWithError,
-      or the connection is closed -/
-  torn : ∀ c ∈ s.wire, c.n < c.len → s.closed = true ∨ s.pc c.id = .wrote c.n false ∨ s.pc c.id = .failing
+/-! ## facts about `glue` (every wire) -/
 
-theorem inv_init (lens : Nat → Nat) : Inv lens init := by
-  constructor <;> simp [init]
+theorem glue_snoc (wire : List Piece) (p : Piece) : glue (wire ++ [p]) = addPiece (glue wire) p := by
+  simp [glue, List.foldl_append]
+
+theorem range_bytes_append (id a n m : Nat) :
+    ((List.range n).map fun i => (id, a + i)) ++ ((List.range m).map fun i => (id, a + n + i)) =
+    (List.range (n + m)).map fun i => (id, a + i) := by
+  rw [List.range_add, List.map_append, List.map_map]
+  congr 1
+  apply List.map_congr_left
+  intro i _
+  simp [Nat.add_assoc]
+
+theorem addPiece_bytes (cs : List Chunk) (p : Piece) :
+    (addPiece cs p).reverse.flatMap Chunk.bytes = cs.reverse.flatMap Chunk.bytes ++ p.bytes := by
+  cases cs with
+  | nil => simp [addPiece, Chunk.bytes, Piece.bytes]
+  | cons c cs =>
+    simp only [addPiece]
+    split
+    · rename_i hc
+      obtain ⟨hid, hoff⟩ := hc
+      simp only [List.reverse_cons, List.flatMap_append, List.flatMap_cons, List.flatMap_nil, List.append_nil,
+        List.append_assoc]
+      congr 1
+      simp only [Chunk.bytes, Piece.bytes, ← hid, ← hoff]
+      exact (range_bytes_append c.id c.start c.n p.n).symm
+    · simp [Chunk.bytes, Piece.bytes]
+
+theorem foldl_addPiece_bytes (wire : List Piece) : ∀ (acc : List Chunk),
+    (wire.foldl addPiece acc).reverse.flatMap Chunk.bytes = acc.reverse.flatMap Chunk.bytes ++ wire.flatMap Piece.bytes := by
+  induction wire with
+  | nil => intro acc; simp
+  | cons p wire ih =>
+    intro acc
+    rw [List.foldl_cons, ih, addPiece_bytes]
+    simp [List.append_assoc]
+
+/-- `glue` does not change the byte stream: the bytes of the chunks (oldest first) are the bytes of the pieces -/
+theorem glue_bytes (wire : List Piece) :
+    (glue wire).reverse.flatMap Chunk.bytes = wire.flatMap Piece.bytes := by
+  simpa [glue] using foldl_addPiece_bytes wire []
+
+/-! ## the inductive invariant -/
+
+/-- accounting: the chunks on the wire are exactly the frame prefixes the control states say were sent -/
+structure Acct (lens : Nat → Nat) (wire : List Piece) (pc : Nat → Pc) : Prop where
+  acct : ∀ c ∈ glue wire, c.start = 0 ∧ 0 < c.n ∧ c.n = (pc c.id).sent
+  pres : ∀ w, 0 < (pc w).sent → ∃ c ∈ glue wire, c.id = w
+  nodup : ((glue wire).map (·.id)).Nodup
+  bound : ∀ w, (pc w).sent ≤ lens w
+
+theorem Acct.congr {lens : Nat → Nat} {wire : List Piece} {pc pc' : Nat → Pc} (h : Acct lens wire pc)
+    (hs : ∀ x, (pc' x).sent = (pc x).sent) : Acct lens wire pc' :=
+  ⟨fun c hc => by rw [hs]; exact h.acct c hc, fun w hw => h.pres w (by rw [← hs]; exact hw), h.nodup,
+   fun w => by rw [hs]; exact h.bound w⟩
+
+structure Inv (cfg : Cfg) (s : St) : Prop where
+  acc : Acct cfg.lens s.wire s.pc
+  /-- mutual exclusion: whoever is inside the socket Write holds the semaphore / is the flusher's buffer -/
+  mutex : ∀ w off, s.pc w = .inWrite off → s.owner = some w
+  /-- the frame being written is the LAST thing on the wire -/
+  head : ∀ w off, s.pc w = .inWrite off → 0 < off → (glue s.wire).head? = some ⟨w, 0, off⟩
+  okFull : ∀ w n, (s.pc w = .wrote n true ∨ s.pc w = .done n true) → n = cfg.lens w
+  failedClosing : ∀ w n, s.pc w = .done n false → 0 < n → s.closing = true
+  closerEx : s.closing = true → s.closed = true ∨ ∃ w n, s.pc w = .closer n
+  closedClosing : s.closed = true → s.closing = true
+  closerClosing : ∀ w n, s.pc w = .closer n → s.closing = true
+  todoQ : ∀ w ∈ s.todo, s.pc w = .queued
+  queueQ : ∀ w ∈ s.queue, s.pc w = .queued
+  disj : ∀ w ∈ s.queue, w ∉ s.todo
 
 theorem setPc_same (pc : Nat → Pc) (w : Nat) (v : Pc) : setPc pc w v w = v := by simp [setPc]
 theorem setPc_other (pc : Nat → Pc) (w x : Nat) (v : Pc) (h : x ≠ w) : setPc pc w v x = pc x := by simp [setPc, h]
 
-theorem inv_step (lens : Nat → Nat) (s s' : St) (a : Act) (h : Inv lens s) (hs : step lens s a = some s') :
-    Inv lens s' := by
+theorem sent_setPc (pc : Nat → Pc) (w : Nat) (v : Pc) (h : v.sent = (pc w).sent) (x : Nat) :
+    (setPc pc w v x).sent = (pc x).sent := by
+  by_cases hx : x = w
+  · subst hx; rw [setPc_same, h]
+  · rw [setPc_other _ _ _ _ hx]
+
+theorem setMany_mem (pc : Nat → Pc) (ws : List Nat) (v : Pc) (x : Nat) (h : x ∈ ws) : setMany pc ws v x = v := by
+  simp [setMany, h]
+theorem setMany_not_mem (pc : Nat → Pc) (ws : List Nat) (v : Pc) (x : Nat) (h : x ∉ ws) : setMany pc ws v x = pc x := by
+  simp [setMany, h]
+
+theorem closerEx_mono {pc pc' : Nat → Pc} {closing closed : Bool}
+    (hpres : ∀ x n, pc x = .closer n → pc' x = .closer n)
+    (hce : closing = true → closed = true ∨ ∃ w n, pc w = .closer n) :
+    closing = true → closed = true ∨ ∃ w n, pc' w = .closer n := by
+  intro hc
+  rcases hce hc with h | ⟨w, n, h⟩
+  · exact Or.inl h
+  · exact Or.inr ⟨w, n, hpres w n h⟩
+
+theorem inv_init (cfg : Cfg) : Inv cfg init := by
+  constructor
+  · constructor <;> simp [init, glue, Pc.sent]
+  all_goals simp [init]
+
+theorem glue_piece (cfg : Cfg) (s : St) (h : Inv cfg s) (w off k : Nat) (hw : s.pc w = .inWrite off) :
+    ∃ rest, glue (s.wire ++ [⟨w, off, k⟩]) = ⟨w, 0, off + k⟩ :: rest ∧
+      (∀ c ∈ rest, c ∈ glue s.wire ∧ c.id ≠ w) ∧ (∀ c ∈ glue s.wire, c.id ≠ w → c ∈ rest) ∧
+      (rest.map (·.id)).Nodup := by
+  rw [glue_snoc]
+  by_cases hoff : off = 0
+  · subst hoff
+    have hno : ∀ c ∈ glue s.wire, c.id ≠ w := by
+      intro c hc hid
+      have := h.acc.acct c hc
+      rw [hid, hw] at this
+      simp [Pc.sent] at this
+      omega
+    refine ⟨glue s.wire, ?_, fun c hc => ⟨hc, hno c hc⟩, fun c hc _ => hc, h.acc.nodup⟩
+    cases hg : glue s.wire with
+    | nil => simp [addPiece]
+    | cons c cs =>
+      have : c.id ≠ w := hno c (by rw [hg]; simp)
+      simp [addPiece, this]
+  · have hhead := h.head w off hw (Nat.pos_of_ne_zero hoff)
+    cases hg : glue s.wire with
+    | nil => rw [hg] at hhead; simp at hhead
+    | cons c cs =>
+      rw [hg] at hhead
+      simp only [List.head?_cons, Option.some.injEq] at hhead
+      subst hhead
+      have hnd := h.acc.nodup
+      rw [hg] at hnd
+      simp only [List.map_cons, List.nodup_cons, List.mem_map, not_exists, not_and] at hnd
+      refine ⟨cs, by simp [addPiece], ?_, ?_, hnd.2⟩
+      · intro c hc
+        exact ⟨by simp [hc], fun hid => hnd.1 c hc hid⟩
+      · intro c hc hid
+        simp only [List.mem_cons] at hc
+        rcases hc with hc | hc
+        · subst hc; simp at hid
+        · exact hc
+
+
+theorem inv_step_piece (cfg : Cfg) (s s' : St) (w k : Nat) (h : Inv cfg s)
+    (hs : step cfg s (.piece w k) = some s') : Inv cfg s' := by
+  simp only [step] at hs
+  split at hs
+  · rename_i off hw
+    split at hs
+    · rename_i hg
+      obtain ⟨hk, hle, hcl⟩ := hg
+      injection hs with hs; subst hs
+      obtain ⟨rest, hglue, hrest, hkeep, hnd⟩ := glue_piece cfg s h w off k hw
+      obtain ⟨hacc, hmutex, hhead, hok, hfc, hce, hcc, hrc, htq, hqq, hdisj⟩ := h
+      have hown := hmutex w off hw
+      refine ⟨⟨?_, ?_, ?_, ?_⟩, ?_, ?_, ?_, ?_, closerEx_mono (by grind [setPc, setMany]) hce, ?_, ?_, ?_, ?_, hdisj⟩
+      · intro c hc
+        dsimp only at hc ⊢
+        simp only [hglue, List.mem_cons] at hc
+        rcases hc with hc | hc
+        · subst hc; simp [setPc_same, Pc.sent]; omega
+        · have := hrest c hc
+          rw [setPc_other _ _ _ _ this.2]
+          exact hacc.acct c this.1
+      · intro x hx
+        dsimp only at hx ⊢
+        simp only [hglue]
+        by_cases hxw : x = w
+        · subst hxw; exact ⟨⟨x, 0, off + k⟩, by simp, rfl⟩
+        · rw [setPc_other _ _ _ _ hxw] at hx
+          obtain ⟨c, hc, hid⟩ := hacc.pres x hx
+          exact ⟨c, by simp [hkeep c hc (by rw [hid]; exact hxw)], hid⟩
+      · dsimp only
+        simp only [hglue, List.map_cons, List.nodup_cons, List.mem_map, not_exists, not_and]
+        exact ⟨fun c hc hid => (hrest c hc).2 hid, hnd⟩
+      · intro x
+        dsimp only
+        by_cases hxw : x = w
+        · subst hxw; simp [setPc_same, Pc.sent]; omega
+        · rw [setPc_other _ _ _ _ hxw]; exact hacc.bound x
+      all_goals grind [setPc]
+    · simp at hs
+  · simp at hs
+
+theorem inv_step_nopiece (cfg : Cfg) (hser : cfg.serialised = true) (s s' : St) (a : Act) (h : Inv cfg s)
+    (hnp : ∀ w k, a ≠ .piece w k)
+    (hs : step cfg s a = some s') : Inv cfg s' := by
+  obtain ⟨hacc, hmutex, hhead, hok, hfc, hce, hcc, hrc, htq, hqq, hdisj⟩ := h
   cases a with
-  | submit w cdf =>
+  | submit w =>
     simp only [step] at hs
     split at hs
     · rename_i hidle
       injection hs with hs; subst hs
-      constructor
-      · exact h.bound
-      · exact h.nodup
-      · intro x hx c hc
-        by_cases hxw : x = w
-        · subst hxw; exact h.fresh x (Or.inl hidle) c hc
-        · simp only [setPc_other _ _ _ _ hxw] at hx; exact h.fresh x hx c hc
-      · intro x n hx hpos
-        by_cases hxw : x = w
-        · subst hxw; simp only [setPc_same] at hx; cases cdf <;> simp at hx
-        · simp only [setPc_other _ _ _ _ hxw] at hx; exact h.okWhole x n hx hpos
-      · intro c hc hlt
-        have hcw : c.id ≠ w := h.fresh w (Or.inl hidle) c hc
-        simp only [setPc_other _ _ _ _ hcw]
-        exact h.torn c hc hlt
+      refine ⟨hacc.congr (sent_setPc _ _ _ (by simp [hidle, Pc.sent])), ?_, ?_, ?_, ?_, closerEx_mono (by grind [setPc, setMany]) hce, ?_, ?_, ?_, ?_, hdisj⟩
+      all_goals grind [setPc]
     · simp at hs
-  | write w k =>
+  | cancel w =>
     simp only [step] at hs
     split at hs
-    · rename_i hcond
-      obtain ⟨hq, hk, hcl⟩ := hcond
+    · rename_i hidle
       injection hs with hs; subst hs
-      have hfresh := h.fresh w (Or.inr (Or.inl hq))
-      by_cases hk0 : k = 0
-      · subst hk0
-        simp only [if_true]
-        constructor
-        · exact h.bound
-        · exact h.nodup
-        · intro x hx c hc
-          by_cases hxw : x = w
-          · subst hxw; exact hfresh c hc
-          · simp only [setPc_other _ _ _ _ hxw] at hx; exact h.fresh x hx c hc
-        · intro x n hx hpos
-          by_cases hxw : x = w
-          · subst hxw
-            simp only [setPc_same] at hx
-            rcases hx with hx | hx
-            · simp at hx; omega
-            · simp at hx
-          · simp only [setPc_other _ _ _ _ hxw] at hx; exact h.okWhole x n hx hpos
-        · intro c hc hlt
-          have hcw : c.id ≠ w := hfresh c hc
-          simp only [setPc_other _ _ _ _ hcw]
-          exact h.torn c hc hlt
-      · simp only [hk0, if_false]
-        have hclosed : s.closed = false := by
-          cases hc : s.closed with
-          | false => rfl
-          | true => exact absurd (hcl hc) hk0
-        constructor
-        · intro c hc
-          simp only [List.mem_append, List.mem_singleton] at hc
-          rcases hc with hc | hc
-          · exact h.bound c hc
-          · subst hc; exact ⟨Nat.pos_of_ne_zero hk0, hk, rfl⟩
-        · simp only [List.map_append, List.map_cons, List.map_nil]
-          rw [List.nodup_append]
-          refine ⟨h.nodup, by simp, ?_⟩
-          intro a ha b hb
-          simp only [List.mem_singleton] at hb
-          subst hb
-          simp only [List.mem_map] at ha
-          obtain ⟨c, hc, hca⟩ := ha
-          intro heq
-          exact hfresh c hc (by rw [hca, heq])
-        · intro x hx c hc
-          by_cases hxw : x = w
-          · subst hxw; simp only [setPc_same] at hx; simp at hx
-          · simp only [setPc_other _ _ _ _ hxw] at hx
-            simp only [List.mem_append, List.mem_singleton] at hc
-            rcases hc with hc | hc
-            · exact h.fresh x hx c hc
-            · subst hc; exact fun e => hxw e.symm
-        · intro x n hx hpos
-          by_cases hxw : x = w
-          · subst hxw
-            simp only [setPc_same] at hx
-            rcases hx with hx | hx
-            · injection hx with h1 h2
-              have : k = lens x := by simpa using h2
-              subst this
-              simp
-            · simp at hx
-          · simp only [setPc_other _ _ _ _ hxw] at hx
-            have := h.okWhole x n hx hpos
-            simp [this]
-        · intro c hc hlt
-          simp only [List.mem_append, List.mem_singleton] at hc
-          rcases hc with hc | hc
-          · have hcw : c.id ≠ w := hfresh c hc
-            simp only [setPc_other _ _ _ _ hcw]
-            exact h.torn c hc hlt
-          · subst hc
-            simp only [setPc_same]
-            right; left
-            have : ¬ k = lens w := by simp at hlt; omega
-            simp [this]
+      refine ⟨hacc.congr (sent_setPc _ _ _ (by simp [hidle, Pc.sent])), ?_, ?_, ?_, ?_, closerEx_mono (by grind [setPc, setMany]) hce, ?_, ?_, ?_, ?_, hdisj⟩
+      all_goals grind [setPc]
+    · simp at hs
+  | enqueue w =>
+    simp only [step] at hs
+    split at hs
+    · rename_i hg
+      obtain ⟨hc, hw, hf⟩ := hg
+      injection hs with hs; subst hs
+      refine ⟨hacc.congr (sent_setPc _ _ _ (by simp [hw, Pc.sent])), ?_, ?_, ?_, ?_, closerEx_mono (by grind [setPc, setMany]) hce, ?_, ?_, ?_, ?_, ?_⟩
+      all_goals grind [setPc]
+    · simp at hs
+  | tick =>
+    simp only [step] at hs
+    split at hs
+    · injection hs with hs; subst hs
+      refine ⟨hacc, hmutex, hhead, hok, hfc, hce, hcc, hrc, ?_, ?_, ?_⟩
+      all_goals grind
+    · simp at hs
+  | enter w =>
+    simp only [step] at hs
+    split at hs
+    · rename_i hg
+      obtain ⟨hown, hw⟩ := hg
+      have hown := hown hser
+      injection hs with hs; subst hs
+      have hsent : (Pc.inWrite 0).sent = (s.pc w).sent := by
+        rcases hw with ⟨_, hw⟩ | ⟨_, hw, _⟩ <;> simp [hw, Pc.sent]
+      refine ⟨hacc.congr (sent_setPc _ _ _ hsent), ?_, ?_, ?_, ?_, closerEx_mono (by grind [setPc, setMany]) hce, ?_, ?_, ?_, ?_, ?_⟩
+      all_goals grind [setPc]
+    · simp at hs
+  | piece w k => exact absurd rfl (hnp w k)
+  | endWrite w ok =>
+    simp only [step] at hs
+    split at hs
+    · rename_i off hw
+      split at hs
+      · rename_i hg
+        injection hs with hs; subst hs
+        have hsent : ∀ x, (setPc (if (cfg.coalesce && !ok) = true then setMany s.pc s.todo (.wrote 0 false) else s.pc) w
+            (.wrote off ok) x).sent = (s.pc x).sent := by
+          intro x
+          by_cases hx : x = w
+          · subst hx; simp [setPc_same, hw, Pc.sent]
+          · rw [setPc_other _ _ _ _ hx]
+            split
+            · by_cases hm : x ∈ s.todo
+              · rw [setMany_mem _ _ _ _ hm, htq x hm]; rfl
+              · rw [setMany_not_mem _ _ _ _ hm]
+            · rfl
+        refine ⟨hacc.congr hsent, ?_, ?_, ?_, ?_, closerEx_mono (by grind [setPc, setMany]) hce, ?_, ?_, ?_, ?_, ?_⟩
+        all_goals grind [setPc, setMany]
+      · simp at hs
+    · simp at hs
+  | quit w =>
+    simp only [step] at hs
+    split at hs
+    · rename_i hg
+      obtain ⟨hc, hw⟩ := hg
+      injection hs with hs; subst hs
+      have hsent : (Pc.wrote 0 false).sent = (s.pc w).sent := by
+        rcases hw with hw | ⟨hw, _⟩ <;> simp [hw, Pc.sent]
+      refine ⟨hacc.congr (sent_setPc _ _ _ hsent), ?_, ?_, ?_, ?_, closerEx_mono (by grind [setPc, setMany]) hce, ?_, ?_, ?_, ?_, ?_⟩
+      all_goals grind [setPc]
     · simp at hs
   | ret w =>
     simp only [step] at hs
     split at hs
+    · rename_i hw
+      injection hs with hs; subst hs
+      refine ⟨hacc.congr (sent_setPc _ _ _ (by simp [hw, Pc.sent])), ?_, ?_, ?_, ?_, closerEx_mono (by grind [setPc, setMany]) hce, ?_, ?_, ?_, ?_, hdisj⟩
+      all_goals grind [setPc]
     · rename_i n hw
       injection hs with hs; subst hs
-      constructor
-      · exact h.bound
-      · exact h.nodup
-      · intro x hx c hc
-        by_cases hxw : x = w
-        · subst hxw; simp only [setPc_same] at hx; simp at hx
-        · simp only [setPc_other _ _ _ _ hxw] at hx; exact h.fresh x hx c hc
-      · intro x m hx hpos
-        by_cases hxw : x = w
-        · subst hxw; exact h.okWhole x n (Or.inl hw) hpos
-        · simp only [setPc_other _ _ _ _ hxw] at hx; exact h.okWhole x m hx hpos
-      · intro c hc hlt
-        by_cases hcw : c.id = w
-        · have := h.torn c hc hlt
-          rw [hcw, hw] at this
-          rcases this with t | t | t
-          · exact Or.inl t
-          · simp at t
-          · simp at t
-        · simp only [setPc_other _ _ _ _ hcw]; exact h.torn c hc hlt
+      refine ⟨hacc.congr (sent_setPc _ _ _ (by simp [hw, Pc.sent])), ?_, ?_, ?_, ?_, closerEx_mono (by grind [setPc, setMany]) hce, ?_, ?_, ?_, ?_, hdisj⟩
+      all_goals grind [setPc]
     · rename_i n hw
       injection hs with hs; subst hs
-      constructor
-      · exact h.bound
-      · exact h.nodup
-      · intro x hx c hc
-        by_cases hxw : x = w
-        · subst hxw; simp only [setPc_same] at hx; simp at hx
-        · simp only [setPc_other _ _ _ _ hxw] at hx; exact h.fresh x hx c hc
-      · intro x m hx hpos
-        by_cases hxw : x = w
-        · subst hxw; simp only [setPc_same] at hx; simp at hx
-        · simp only [setPc_other _ _ _ _ hxw] at hx; exact h.okWhole x m hx hpos
-      · intro c hc hlt
-        by_cases hcw : c.id = w
-        · rw [hcw]; simp [setPc_same]
-        · simp only [setPc_other _ _ _ _ hcw]; exact h.torn c hc hlt
+      refine ⟨hacc.congr (sent_setPc _ _ _ (by simp [hw, Pc.sent])), ?_, ?_, ?_, ?_, closerEx_mono (by grind [setPc, setMany]) hce, ?_, ?_, ?_, ?_, hdisj⟩
+      all_goals grind [setPc]
     · simp at hs
   | close w =>
     simp only [step] at hs
     split at hs
-    · rename_i hf
+    · rename_i n hw
       injection hs with hs; subst hs
-      constructor
-      · exact h.bound
-      · exact h.nodup
-      · intro x hx c hc
-        by_cases hxw : x = w
-        · subst hxw; simp only [setPc_same] at hx; simp at hx
-        · simp only [setPc_other _ _ _ _ hxw] at hx; exact h.fresh x hx c hc
-      · intro x m hx hpos
-        by_cases hxw : x = w
-        · subst hxw; simp only [setPc_same] at hx; simp at hx
-        · simp only [setPc_other _ _ _ _ hxw] at hx; exact h.okWhole x m hx hpos
-      · intro c hc hlt; exact Or.inl rfl
+      have hsent : (if s.closing = true then Pc.done n false else Pc.closer n).sent = (s.pc w).sent := by
+        split <;> simp [hw, Pc.sent]
+      refine ⟨hacc.congr (sent_setPc _ _ _ hsent), ?_, ?_, ?_, ?_, ?ce, ?_, ?_, ?_, ?_, hdisj⟩
+      case ce =>
+        intro _
+        by_cases hc : s.closing = true
+        · rcases hce hc with h | ⟨w1, n1, h1⟩
+          · exact Or.inl h
+          · refine Or.inr ⟨w1, n1, ?_⟩
+            have : w1 ≠ w := by intro e; rw [e, hw] at h1; cases h1
+            simp only [setPc_other _ _ _ _ this, h1]
+        · exact Or.inr ⟨w, n, by simp [setPc_same, hc]⟩
+      all_goals grind [setPc]
     · simp at hs
+  | closeFinish w =>
+    simp only [step] at hs
+    split at hs
+    · rename_i n hw
+      injection hs with hs; subst hs
+      refine ⟨hacc.congr (sent_setPc _ _ _ (by simp [hw, Pc.sent])), ?_, ?_, ?_, ?_, ?_, ?_, ?_, ?_, ?_, hdisj⟩
+      all_goals grind [setPc]
+    · simp at hs
+  | shutdown =>
+    simp only [step] at hs
+    injection hs with hs; subst hs
+    exact ⟨hacc, hmutex, hhead, hok, fun _ _ _ _ => rfl, fun _ => Or.inl rfl, fun _ => rfl, fun _ _ _ => rfl, htq, hqq, hdisj⟩
+
+/-- the invariant is preserved by every action of the serialised machine -/
+theorem inv_step (cfg : Cfg) (hser : cfg.serialised = true) (s s' : St) (a : Act) (h : Inv cfg s)
+    (hs : step cfg s a = some s') : Inv cfg s' := by
+  by_cases hp : ∃ w k, a = .piece w k
+  · obtain ⟨w, k, rfl⟩ := hp
+    exact inv_step_piece cfg s s' w k h hs
+  · exact inv_step_nopiece cfg hser s s' a h (fun w k e => hp ⟨w, k, e⟩) hs
 
 /-- every reachable state satisfies the invariant (all schedules, any number of writers) -/
-theorem inv_run (lens : Nat → Nat) : ∀ (as : List Act) (s s' : St), Inv lens s → run lens s as = some s' → Inv lens s'
+theorem inv_run (cfg : Cfg) (hser : cfg.serialised = true) :
+    ∀ (as : List Act) (s s' : St), Inv cfg s → run cfg s as = some s' → Inv cfg s'
   | [], s, s', h, hr => by simp [run] at hr; subst hr; exact h
   | a :: as, s, s', h, hr => by
     simp only [run] at hr
     split at hr
     · rename_i s1 hs1
-      exact inv_run lens as s1 s' (inv_step lens s s1 a h hs1) hr
+      exact inv_run cfg hser as s1 s' (inv_step cfg hser s s1 a h hs1) hr
     · simp at hr
 
-/-- progress: a writer whose write was cut can always take its next step (nothing can block it) -/
-theorem torn_writer_can_close (lens : Nat → Nat) (s : St) (w n : Nat) (h : s.pc w = .wrote n false) :
-    ∃ s1 s2, step lens s (.ret w) = some s1 ∧ step lens s1 (.close w) = some s2 ∧ s2.closed = true := by
-  refine ⟨{ s with pc := setPc s.pc w .failing },
-    { s with pc := setPc (setPc s.pc w .failing) w (.done false), closed := true }, ?_, ?_, rfl⟩
+/-- progress: a writer whose write was cut can always take its next steps (nothing in the model blocks it), after
+    which the connection is closing; and whoever is the closer can finish, after which the socket is closed -/
+theorem torn_writer_can_close (cfg : Cfg) (s : St) (w n : Nat) (h : s.pc w = .wrote n false) :
+    ∃ s1 s2, step cfg s (.ret w) = some s1 ∧ step cfg s1 (.close w) = some s2 ∧ s2.closing = true := by
+  refine ⟨{ s with pc := setPc s.pc w (.failing n) },
+    { s with pc := setPc (setPc s.pc w (.failing n)) w (if s.closing then .done n false else .closer n), closing := true },
+    ?_, ?_, rfl⟩
   · simp only [step, h]
-  · simp only [step, setPc_same, if_true]
+  · simp only [step, setPc_same]
+
+theorem closer_can_finish (cfg : Cfg) (s : St) (w n : Nat) (h : s.pc w = .closer n) :
+    ∃ s1, step cfg s (.closeFinish w) = some s1 ∧ s1.closed = true :=
+  ⟨{ s with pc := setPc s.pc w (.done n false), closed := true }, by simp only [step, h], rfl⟩
+
+/-- every piece on the wire belongs to some chunk of the same frame -/
+theorem foldl_addPiece_ids (wire : List Piece) : ∀ (acc : List Chunk),
+    (∀ c ∈ acc, ∃ c' ∈ wire.foldl addPiece acc, c'.id = c.id) ∧
+    (∀ p ∈ wire, ∃ c' ∈ wire.foldl addPiece acc, c'.id = p.id) := by
+  induction wire with
+  | nil => intro acc; exact ⟨fun c hc => ⟨c, hc, rfl⟩, by simp⟩
+  | cons q wire ih =>
+    intro acc
+    have hstep : (∀ c ∈ acc, ∃ c' ∈ addPiece acc q, c'.id = c.id) ∧ (∃ c' ∈ addPiece acc q, c'.id = q.id) := by
+      cases acc with
+      | nil => simp [addPiece]
+      | cons a acc =>
+        simp only [addPiece]
+        split
+        · rename_i hc
+          refine ⟨?_, ⟨⟨a.id, a.start, a.n + q.n⟩, List.mem_cons_self, hc.1⟩⟩
+          intro c hc'
+          simp only [List.mem_cons] at hc'
+          rcases hc' with rfl | hc'
+          · exact ⟨⟨c.id, c.start, c.n + q.n⟩, List.mem_cons_self, rfl⟩
+          · exact ⟨c, List.mem_cons_of_mem _ hc', rfl⟩
+        · refine ⟨?_, ⟨⟨q.id, q.off, q.n⟩, List.mem_cons_self, rfl⟩⟩
+          intro c hc'
+          exact ⟨c, List.mem_cons_of_mem _ hc', rfl⟩
+    obtain ⟨ih1, ih2⟩ := ih (addPiece acc q)
+    constructor
+    · intro c hc
+      obtain ⟨c1, hc1, e1⟩ := hstep.1 c hc
+      obtain ⟨c2, hc2, e2⟩ := ih1 c1 hc1
+      exact ⟨c2, hc2, e2.trans e1⟩
+    · intro p hp
+      simp only [List.mem_cons] at hp
+      rcases hp with rfl | hp
+      · obtain ⟨c1, hc1, e1⟩ := hstep.2
+        obtain ⟨c2, hc2, e2⟩ := ih1 c1 hc1
+        exact ⟨c2, hc2, e2.trans e1⟩
+      · exact ih2 p hp
+
+theorem glue_has_piece (wire : List Piece) (p : Piece) (hp : p ∈ wire) : ∃ c ∈ glue wire, c.id = p.id :=
+  (foldl_addPiece_ids wire []).2 p hp
+
+theorem scanFrom_snoc (lens : Nat → Nat) (ps : List Piece) : ∀ (cs : List Chunk) (p : Piece),
+    scanFrom lens cs (ps ++ [p]) =
+      match scanFrom lens cs ps with
+      | some cs' => if framed lens (addPiece cs' p) then some (addPiece cs' p) else none
+      | none => none := by
+  induction ps with
+  | nil => intro cs p; simp [scanFrom]
+  | cons q ps ih =>
+    intro cs p
+    simp only [List.cons_append, scanFrom]
+    split
+    · exact ih _ p
+    · rfl
+
+/-- what an accepting scan returns is `glue`, and it is framed (unless the wire is empty) -/
+theorem scanFrom_some (lens : Nat → Nat) (ps : List Piece) : ∀ (cs cs' : List Chunk),
+    scanFrom lens cs ps = some cs' → cs' = ps.foldl addPiece cs ∧ (ps ≠ [] → framed lens cs' = true) := by
+  induction ps with
+  | nil => intro cs cs' h; simp [scanFrom] at h; subst h; simp
+  | cons q ps ih =>
+    intro cs cs' h
+    simp only [scanFrom] at h
+    split at h
+    · rename_i hf
+      obtain ⟨h1, h2⟩ := ih _ _ h
+      refine ⟨by simpa using h1, fun _ => ?_⟩
+      cases ps with
+      | nil => simp [scanFrom] at h; subst h; exact hf
+      | cons r rs => exact h2 (by simp)
+    · simp at h
+
+theorem step_wire (cfg : Cfg) (s s' : St) (a : Act) (hs : step cfg s a = some s') :
+    s'.wire = s.wire ∨ ∃ p, s'.wire = s.wire ++ [p] := by
+  cases a <;> simp only [step] at hs <;> (try split at hs) <;> (try split at hs) <;>
+    (try (simp at hs)) <;> (try (injection hs with hs; subst hs; simp))
+  all_goals (first | (subst hs; simp) | skip)
+
+
+theorem framed_of_inv (cfg : Cfg) (s : St) (inv : Inv cfg s) : framed cfg.lens (glue s.wire) = true := by
+  simp only [framed, Bool.and_eq_true, List.all_eq_true, decide_eq_true_eq, beq_iff_eq]
+  refine ⟨fun c hc => ?_, inv.acc.nodup⟩
+  obtain ⟨h0, hpos, hn⟩ := inv.acc.acct c hc
+  exact ⟨⟨h0, hpos⟩, by rw [hn]; exact inv.acc.bound c.id⟩
+
+/-- the online check accepts the wire of every state reachable from a state whose wire it accepts -/
+theorem scan_run (cfg : Cfg) (hser : cfg.serialised = true) : ∀ (as : List Act) (s s' : St), Inv cfg s →
+    scan cfg.lens s.wire = some (glue s.wire) → run cfg s as = some s' → scan cfg.lens s'.wire = some (glue s'.wire)
+  | [], s, s', _, hsc, hr => by simp [run] at hr; subst hr; exact hsc
+  | a :: as, s, s', inv, hsc, hr => by
+    simp only [run] at hr
+    split at hr
+    · rename_i s1 hs1
+      have inv1 := inv_step cfg hser s s1 a inv hs1
+      refine scan_run cfg hser as s1 s' inv1 ?_ hr
+      rcases step_wire cfg s s1 a hs1 with hw | ⟨p, hw⟩
+      · rw [hw]; exact hsc
+      · have hf := framed_of_inv cfg s1 inv1
+        rw [hw] at hf ⊢
+        unfold scan at hsc ⊢
+        rw [scanFrom_snoc, hsc]
+        simp only [← glue_snoc]
+        simp [hf]
+    · simp at hr
+
+/-- a rejection pinpoints a prefix of the byte stream that is not framed -/
+theorem scanFrom_none (lens : Nat → Nat) (ps : List Piece) : ∀ (cs : List Chunk),
+    scanFrom lens cs ps = none → ∃ pre, pre <+: ps ∧ framed lens (pre.foldl addPiece cs) = false := by
+  induction ps with
+  | nil => intro cs h; simp [scanFrom] at h
+  | cons q ps ih =>
+    intro cs h
+    simp only [scanFrom] at h
+    split at h
+    · obtain ⟨pre, hpre, hf⟩ := ih _ h
+      exact ⟨q :: pre, by simpa using hpre, by simpa using hf⟩
+    · rename_i hf
+      exact ⟨[q], by simp, by simpa using hf⟩
+
+/-- `done` is final: nothing changes the control state of a writer that has returned, and no byte of its frame
+    is added to the wire afterwards -/
+theorem done_step (cfg : Cfg) (s s' : St) (a : Act) (inv : Inv cfg s) (w n : Nat) (ok : Bool)
+    (hd : s.pc w = .done n ok) (hs : step cfg s a = some s') :
+    s'.pc w = .done n ok ∧ s'.wire.filter (·.id = w) = s.wire.filter (·.id = w) := by
+  have htodo : w ∉ s.todo := fun hm => by have := inv.todoQ w hm; rw [hd] at this; cases this
+  cases a with
+  | piece x k =>
+    simp only [step] at hs
+    split at hs
+    · rename_i off hx
+      split at hs
+      · injection hs with hs; subst hs
+        have hxw : w ≠ x := by intro e; rw [e, hx] at hd; cases hd
+        refine ⟨by simp only [setPc_other _ _ _ _ hxw, hd], ?_⟩
+        simp [List.filter_append, Ne.symm hxw]
+      · simp at hs
+    · simp at hs
+  | endWrite x ok' =>
+    simp only [step] at hs
+    split at hs
+    · rename_i off hx
+      split at hs
+      · injection hs with hs; subst hs
+        have hxw : w ≠ x := by intro e; rw [e, hx] at hd; cases hd
+        refine ⟨?_, rfl⟩
+        simp only [setPc_other _ _ _ _ hxw]
+        split
+        · rw [setMany_not_mem _ _ _ _ htodo, hd]
+        · exact hd
+      · simp at hs
+    · simp at hs
+  | submit x | cancel x | enqueue x | enter x | quit x | ret x | close x | closeFinish x =>
+    simp only [step] at hs
+    split at hs <;> first
+      | (injection hs with hs; subst hs
+         refine ⟨?_, rfl⟩
+         have hxw : w ≠ x := by intro e; subst e; simp_all
+         simp only [setPc_other _ _ _ _ hxw, hd])
+      | (simp at hs)
+  | tick =>
+    simp only [step] at hs
+    split at hs
+    · injection hs with hs; subst hs; exact ⟨hd, rfl⟩
+    · simp at hs
+  | shutdown =>
+    simp only [step] at hs
+    injection hs with hs; subst hs; exact ⟨hd, rfl⟩
+
+theorem done_run (cfg : Cfg) (hser : cfg.serialised = true) (w n : Nat) (ok : Bool) : ∀ (as : List Act) (s s' : St),
+    Inv cfg s → s.pc w = .done n ok → run cfg s as = some s' →
+    s'.pc w = .done n ok ∧ s'.wire.filter (·.id = w) = s.wire.filter (·.id = w)
+  | [], s, s', _, hd, hr => by simp [run] at hr; subst hr; exact ⟨hd, rfl⟩
+  | a :: as, s, s', inv, hd, hr => by
+    simp only [run] at hr
+    split at hr
+    · rename_i s1 hs1
+      have h1 := done_step cfg s s1 a inv w n ok hd hs1
+      have h2 := done_run cfg hser w n ok as s1 s' (inv_step cfg hser s s1 a inv hs1) h1.1 hr
+      exact ⟨h2.1, h2.2.trans h1.2⟩
+    · simp at hr
 
 end Writer
